@@ -230,6 +230,15 @@ func (w *World) Check(ctx string) {
 		if t.PlayerCount != len(ps) {
 			w.fail("C09", "table-player-count/"+ctx, "after %s table %s: regulator counts %d players, %d sit there", ctx, id, t.PlayerCount, len(ps))
 		}
+		// the outstanding demand the regulator keeps for a table (Required: players it
+		// will hand to that table as soon as it has some) is an instruction in waiting:
+		// together with the players already there it may not exceed the capacity
+		if t.Required > 0 && t.PlayerCount+t.Required > w.Max {
+			w.fail("C19", "demand-over-capacity/"+ctx, "after %s table %s holds %d players and the regulator wants %d more for it, capacity is %d", ctx, id, t.PlayerCount, t.Required, w.Max)
+		}
+		if t.Required > 0 {
+			w.Facts["outstanding-demand"] = true
+		}
 		if len(ps) > w.Max {
 			w.fail("C19", "table-over-capacity/"+ctx, "after %s table %s holds %d players, capacity is %d", ctx, id, len(ps), w.Max)
 		}
